@@ -248,9 +248,11 @@ class Asm:
             if v.k != 0:
                 raise AsmError("recursive-definition")
             c = v.c
-            if not -(1 << 16) < c < (1 << 16):
+            if c >= (1 << 16) or c <= -(1 << 16):
                 raise AsmError("value-out-of-bounds")
-            self._base = c % (1 << 16)
+            if c < 0:
+                raise Cycle("negative link base: the statement does not say what it means")
+            self._base = c
         finally:
             self._base_busy = False
         return self._base
